@@ -17,14 +17,16 @@ pub struct FTier {
     pub ref_budget: u64,
     /// number of sampled k for long reference runs
     pub sample_k: u64,
+    /// every (dimension mode, field) for every (solver, problem, parameters)
+    pub full_cross: bool,
 }
 
 impl FTier {
     pub fn quick() -> FTier {
-        FTier { thorough: false, exhaustive_cap: 400, ref_budget: 6_000, sample_k: 48 }
+        FTier { thorough: false, exhaustive_cap: 700, ref_budget: 8_000, sample_k: 64, full_cross: true }
     }
     pub fn thorough() -> FTier {
-        FTier { thorough: true, exhaustive_cap: 6_000, ref_budget: 60_000, sample_k: 256 }
+        FTier { thorough: true, exhaustive_cap: 6_000, ref_budget: 60_000, sample_k: 256, full_cross: true }
     }
 }
 
@@ -95,8 +97,9 @@ pub fn groups(tier: &FTier) -> Vec<InstSpec> {
     for kind in KINDS {
         for problem in PROBLEMS {
             for (pi, p) in params.iter().enumerate() {
-                if tier.thorough {
-                    for dim in dims_all {
+                if tier.thorough || tier.full_cross {
+                    let dims: &[DimMode] = if tier.thorough { &dims_all } else { &dims_all[..4] };
+                    for &dim in dims {
                         for field in fields {
                             out.push(mk(kind, dim, field, problem, *p, idx));
                             idx += 1;
@@ -278,8 +281,8 @@ pub fn run_group(seed: u64, gi: u64, base: &InstSpec, tier: &FTier, st: &mut Sta
     let mut out = GroupOutcome { harness_errors: Vec::new() };
     let mut rng = SplitMix64::new(mix(seed, 0x4600_0000_0000 + gi));
     let ref_budget = Budget { max_calls: tier.ref_budget, max_polls: tier.ref_budget };
-    let ref_spec = RunSpec { instances: vec![base.clone()], sched_seed: 0 };
-    let opts_ref = ExecOpts { record: false, keep_tail: 0, rec_polls: true, check_isolation: false };
+    let ref_spec = RunSpec { instances: vec![base.clone()], sched_seed: 0, phased: false, solo_baselines: true };
+    let opts_ref = ExecOpts { record: false, keep_tail: 0, rec_polls: true, check_isolation: false, rec_items: false };
     let rr = execute(&ref_spec, &[ref_budget], &opts_ref);
     st.account_run((MODE_FGRID, gi, 0), &ref_spec, &rr.insts, rr.fp);
     if let Some(v) = rr.violation {
@@ -305,7 +308,7 @@ pub fn run_group(seed: u64, gi: u64, base: &InstSpec, tier: &FTier, st: &mut Sta
         st.ref_sampled_groups += 1;
     }
     let budget = Budget { max_calls: r.calls + 1000, max_polls: r.polls + 64 };
-    let opts = ExecOpts { record: false, keep_tail: 0, rec_polls: false, check_isolation: false };
+    let opts = ExecOpts { record: false, keep_tail: 0, rec_polls: false, check_isolation: false, rec_items: false };
     let mut sub: u64 = 0;
     let mut sample_taken = false;
     for &k in &ks {
@@ -317,6 +320,24 @@ pub fn run_group(seed: u64, gi: u64, base: &InstSpec, tier: &FTier, st: &mut Sta
             }
             if (k + gi) % 5 == 0 {
                 drives.push(Drive::TakeBursts(1 + ((k + gi) % 4) as u8));
+            }
+            if (k + gi) % 7 == 1 {
+                drives.push(Drive::Nth0);
+            }
+            if (k + gi) % 7 == 4 {
+                drives.push(Drive::Fold);
+            }
+            if (k + gi) % 4 == 2 {
+                drives.push(Drive::PollThenCollect);
+            }
+            if (k + gi) % 4 == 1 {
+                drives.push(Drive::NthSkip(1 + ((k / 4 + gi) % 4) as u8));
+            }
+            if (k + gi) % 13 == 3 {
+                drives.push(Drive::Count);
+            }
+            if (k + gi) % 13 == 7 {
+                drives.push(Drive::Last);
             }
             let payloads: Vec<Payload> = if k <= 3 {
                 PAYLOADS.to_vec()
@@ -334,7 +355,7 @@ pub fn run_group(seed: u64, gi: u64, base: &InstSpec, tier: &FTier, st: &mut Sta
                         extra_polls: extra,
                         ..base.clone()
                     };
-                    let spec = RunSpec { instances: vec![inst], sched_seed: 0 };
+                    let spec = RunSpec { instances: vec![inst], sched_seed: 0, phased: false, solo_baselines: true };
                     let res = execute(&spec, &[budget], &opts);
                     st.account_run((MODE_FGRID, gi, sub), &spec, &res.insts, res.fp);
                     let s = &res.insts[0];
@@ -353,7 +374,7 @@ pub fn run_group(seed: u64, gi: u64, base: &InstSpec, tier: &FTier, st: &mut Sta
                         st.violations.push(FoundViolation { id: (MODE_FGRID, gi, sub), spec, budgets: vec![budget], violation: v });
                     } else if !sample_taken && s.fired > 0 && gi % 97 == 5 && k > 2 {
                         sample_taken = true;
-                        let rec = execute(&spec, &[budget], &ExecOpts { record: true, keep_tail: 12, rec_polls: false, check_isolation: false });
+                        let rec = execute(&spec, &[budget], &ExecOpts { record: true, keep_tail: 12, rec_polls: false, check_isolation: false, rec_items: false });
                         st.samples.push(((MODE_FGRID, gi, sub), crate::evidence::sample_json(&spec, &[budget], &rec)));
                     }
                 }
@@ -377,7 +398,7 @@ pub fn run_group(seed: u64, gi: u64, base: &InstSpec, tier: &FTier, st: &mut Sta
             FaultPlan::Scattered(ks2)
         };
         sub += 1;
-        let drive = *rng.pick(&[Drive::Poll, Drive::CollectVec, Drive::ByRefCollect, Drive::TakeBursts(2)]);
+        let drive = *rng.pick(&[Drive::Poll, Drive::CollectVec, Drive::ByRefCollect, Drive::TakeBursts(2), Drive::Nth0, Drive::Fold, Drive::PollThenCollect, Drive::NthSkip(2)]);
         let inst = InstSpec {
             plan,
             payload: *rng.pick(&PAYLOADS),
@@ -385,7 +406,7 @@ pub fn run_group(seed: u64, gi: u64, base: &InstSpec, tier: &FTier, st: &mut Sta
             extra_polls: rng.range(1, 8) as u8,
             ..base.clone()
         };
-        let spec = RunSpec { instances: vec![inst], sched_seed: 0 };
+        let spec = RunSpec { instances: vec![inst], sched_seed: 0, phased: false, solo_baselines: true };
         let res = execute(&spec, &[budget], &opts);
         st.account_run((MODE_FGRID, gi, sub), &spec, &res.insts, res.fp);
         if let Some(v) = res.violation {
